@@ -42,6 +42,10 @@ def band_pixels(be, layers, rescale, offset):
 def check_case(res, fr, arr, mode, layers, integrate, normalize, rescale, offset, repeat, exprs, label, spec):
     img = Image.fromarray(arr.astype(np.uint8) if mode == "L" else arr.astype(np.float32))
     bes = list(fr.internal_big_edges)
+    if not bes:
+        # the statement quantifies over interfaces; 'average' of an empty list is 0/0
+        res.count("skipped: tissue without internal interface")
+        return
     if repeat and len(bes) >= 3:
         bes = [bes[0], bes[1], bes[0]] + bes[2:]
     replay = {"spec": {k: spec[k] for k in ("vertices", "edges", "cells")}, "image_seed_shape": list(arr.shape), "image": arr.astype(int).tolist(),
